@@ -36,6 +36,7 @@ type obsTerm struct {
 }
 
 type Exec struct {
+	fieldTagCache map[string]bool // frame components whose field the property's contracts mention
 	shared map[string]bool // heap components of struct fields declared shared in a confine block
 	goEpoch int // anonymous goroutine bodies executed so far
 	mute bool // an expression is being re-evaluated for its value only: its obligations were generated where the code evaluates it
